@@ -22,6 +22,14 @@
 //                    function of (programs, schedule).  cfg[2] = 1: bSync as the code asks (synchronize(): false,
 //                    force_dispose(): true): the reclamation thread frees concurrently with the clients; the clients'
 //                    interleaving is still decided by the schedule, the instant of each disposal is not.
+//                    cfg[2] also carries the STALL mode of the buffer's pop_front() (called by the reclamation thread
+//                    only; used with the free-running hand-off): cfg[2] = mode | stall << 1 | N << 3,
+//                    stall = 1: after the real pop_front() the reclamation thread waits - real time, bounded: until the
+//                    scheduler has taken N further decisions, or no client can take one (all finished / one of them is
+//                    itself waiting for the reclamation thread), or 3 ms, whichever comes first - so that the clients'
+//                    pushes can fall into the window between the pop of a cell and what dispose_buffer() does next;
+//                    stall = 2: the same wait BEFORE the real pop_front() (window between free and pop).
+//                    A stall only delays the reclamation thread; it never blocks for more than 3 ms per pop.
 //   Buffer         = cfg[0]: 0 ABuf<VyukovMPSCCycleQueue<epoch_retired_ptr>>            (push = one atomic step)
 //                            1 ABuf<VyukovMPSCCycleQueue<epoch_retired_ptr, counting>>  (push = one atomic step, size() counts)
 //                            2 DBuf<VyukovMPSCCycleQueue<epoch_retired_ptr>>            (queue internals scheduled)
@@ -34,7 +42,7 @@
 // Client operations (same numbering as harness/C04/rcu_harness.h):
 //   1 attach | 2 detach | 3 rlock | 4 runlock | 5 synchronize | 6 p retire | 7 p publish | 8 unpublish | 9 touch
 //   10 p1..pk batch_retire | 11 force_dispose
-// cfg = [ buffer variant; capacity; handoff mode; nseg; (t p k n) * nseg ]
+// cfg = [ buffer variant; capacity; handoff mode | pop stall << 1 | stall decisions << 3; nseg; (t p k n) * nseg ]
 //   Director ("run-one-thread-to-a-point-then-switch"): segment (t,p,k,n) = run thread t until it passes point p for the
 //   k-th time, then n more atomic accesses of t, then the next segment; p = 0: just n accesses of t.  After the last
 //   segment the `sched` line of the case is used, then round-robin.  The director only rewrites the not-yet-used part of
@@ -195,6 +203,42 @@ struct PBackoff {
 
 static std::atomic<int> g_push_inflight( 0 );
 
+// stall mode of pop_front() (see the header comment)
+static std::atomic<int>  g_stall_mode( 0 );
+static std::atomic<long> g_stall_n( 0 );
+static std::atomic<bool> g_run_active( false );     // between the start of the workers and the end of the scheduled run
+static std::atomic<int>  g_in_handoff( 0 );         // a client is inside dispose_thread::dispose() (it holds the baton)
+static std::atomic<long> g_stalls( 0 ), g_stall_full( 0 ), g_stall_timeouts( 0 );
+
+static void stall_reclamation_thread()
+{
+    if ( vs::my_tid() >= 0 || !g_run_active.load()) return;     // reclamation thread only, never at Destruct
+    long const n = g_stall_n.load();
+    vs::sched_state& S = vs::S();
+    size_t start;
+    { std::unique_lock<std::mutex> lk( S.m ); start = S.step; }
+    auto t0 = std::chrono::steady_clock::now();
+    g_stalls.fetch_add( 1 );
+    for ( ;; ) {
+        if ( !g_run_active.load() || g_in_handoff.load() > 0 ) return;
+        {
+            std::unique_lock<std::mutex> lk( S.m );
+            if ( S.n == 0 || S.nfinished == S.n || S.overrun ) return;
+            if ( S.step >= start + (size_t) n ) { g_stall_full.fetch_add( 1 ); return; }
+        }
+        if ( std::chrono::steady_clock::now() - t0 > std::chrono::milliseconds( 3 )) { g_stall_timeouts.fetch_add( 1 ); return; }
+        std::this_thread::yield();
+    }
+}
+static inline bool stalled_pop( std::function<bool()> pop )
+{
+    int mode = g_stall_mode.load();
+    if ( mode == 2 ) stall_reclamation_thread();
+    bool r = pop();
+    if ( mode == 1 ) stall_reclamation_thread();
+    return r;
+}
+
 struct counting_traits : public cds::container::vyukov_queue::traits { typedef cds::atomicity::item_counter item_counter; };
 typedef cds::container::VyukovMPSCCycleQueue< cds::urcu::epoch_retired_ptr > queue_plain;
 typedef cds::container::VyukovMPSCCycleQueue< cds::urcu::epoch_retired_ptr, counting_traits > queue_counting;
@@ -218,7 +262,7 @@ public:
         return ok;
     }
     value_type* front() { return m_q.front(); }
-    bool pop_front()    { return m_q.pop_front(); }
+    bool pop_front()    { return stalled_pop( [this] { return m_q.pop_front(); } ); }
     size_t size() const { return m_q.size(); }
 };
 
@@ -240,7 +284,7 @@ public:
         return ok;
     }
     value_type* front() { return m_q.front(); }
-    bool pop_front()    { return m_q.pop_front(); }
+    bool pop_front()    { return stalled_pop( [this] { return m_q.pop_front(); } ); }
     size_t size() const { return m_q.size(); }
 };
 
@@ -263,7 +307,9 @@ public:
         {
             vs::passthrough_scope ps;
             { std::lock_guard<std::mutex> lk( g_m.mx ); ++g_m.handoffs; g_m.h( "handoff %ld %ld", (long) nCurEpoch, bSync ? 1 : 0 ); }
+            g_in_handoff.fetch_add( 1 );
             m_d.dispose( buf, nCurEpoch, bSync || g_force_sync );
+            g_in_handoff.fetch_sub( 1 );
         }
         hit( P_DISPOSE_RET );
     }
@@ -417,7 +463,10 @@ static void run_case( vcase::Case const& c0, bool verbose )
     vcase::Case c = c0;
     int n = (int) c.threads.size();
     size_t cap = c.cfg.size() > 1 ? (size_t) c.cfg[1] : 2;
-    g_force_sync = !( c.cfg.size() > 2 && c.cfg[2] == 1 );
+    long const mode = c.cfg.size() > 2 ? c.cfg[2] : 0;
+    g_force_sync = ( mode & 1 ) == 0;
+    g_stall_mode.store( (int)(( mode >> 1 ) & 3 )); g_stall_n.store( mode >> 3 );
+    g_stalls.store( 0 ); g_stall_full.store( 0 ); g_stall_timeouts.store( 0 ); g_in_handoff.store( 0 );
     std::vector<Seg> segs;
     size_t nseg = c.cfg.size() > 3 ? (size_t) c.cfg[3] : 0;
     for ( size_t i = 0; i < nseg && 4 + 4 * i + 3 < c.cfg.size(); ++i ) {
@@ -435,10 +484,12 @@ static void run_case( vcase::Case const& c0, bool verbose )
     g_push_inflight.store( 0 );
     RCU* rcu = new RCU( cap );
     atomics::atomic<long> src( 0 );
+    g_run_active.store( true );
     vcase::run_workers( c, [&]( int t ) {
         Client<RCU> cl; cl.tid = t; cl.src = &src;
         cl.run( c.threads[t] );
     }, nullptr, nullptr, 60000 );
+    g_run_active.store( false );
     bool overrun = vs::S().overrun;
     std::vector<int> eff;
     {
@@ -473,6 +524,7 @@ static void run_case( vcase::Case const& c0, bool verbose )
     std::printf( "monitor retired %ld disposed_at_destruct %ld\n", retired, (long)( after - before ));
     std::printf( "monitor disposed_by thread %ld client %ld destruct %ld handoffs %ld waits %ld steps %ld segs %ld %ld\n",
                  m.by_thread, m.by_client, m.by_destruct, m.handoffs, m.waits, (long) steps, g_dir.completed, (long) g_dir.segs.size());
+    std::printf( "monitor stalls %ld full %ld timeouts %ld\n", g_stalls.load(), g_stall_full.load(), g_stall_timeouts.load());
     std::printf( "monitor points" );
     for ( int p = 1; p < P_COUNT; ++p ) std::printf( " %s %ld", point_name[p], g_dir.hits[p] );
     std::printf( "\n" );
